@@ -57,8 +57,10 @@ CONTENTS = {
     'd2/a': {'c1': {'svc:over': 'role:e1', 'svc:extra': 'role:ex'},
              'c0': {}},
 }
-PATHS = {'main': 'policy.yaml', 'd1/a': 'd1/a.yaml', 'd1/b': 'd1/b.yaml',
-         'd2/a': 'd2/a.yaml'}
+# the first policy directory carries glob metacharacters in its name
+D1 = 'd1[s]'
+PATHS = {'main': 'policy.yaml', 'd1/a': D1 + '/a.yaml',
+         'd1/b': D1 + '/b.yaml', 'd2/a': 'd2/a.yaml'}
 WORLDS = {
     'w4full': {'files': ['main', 'd1/a', 'd1/b', 'd2/a'],
                'contents': {'main': ['c1', 'c2', 'c0'], 'd1/a': ['c1', 'c2'],
@@ -101,7 +103,7 @@ class System:
         self.wname = wname
         self.spec = WORLDS[wname]
         self.w = world.FileWorld()
-        self.w.mkdir('d1')
+        self.w.mkdir(D1)
         # d2 is configured but does not exist until a file is written into
         # it: a policy directory that appears later
         self.content = {f: None for f in self.spec['files']}
@@ -115,7 +117,7 @@ class System:
 
     def make_enforcer(self):
         P = self.P
-        conf = world.new_conf(self.w.root, policy_dirs=['d1', 'd2'],
+        conf = world.new_conf(self.w.root, policy_dirs=[D1, 'd2'],
                               enforce_new_defaults=False)
         enf = P.Enforcer(conf)
         enf.suppress_deprecation_warnings = True
@@ -200,7 +202,7 @@ class System:
             else:
                 files[f] = None
         dirs = {}
-        for d in ('d1', 'd2'):
+        for d in (D1, 'd2'):
             if not os.path.isdir(self.w.path(d)):
                 dirs[d] = None
                 continue
